@@ -61,6 +61,10 @@ pub struct GeoCase {
     /// (the first thing drawn after the terminal changed its width)
     #[serde(default)]
     via_println: bool,
+    /// {bar:W} only: the terminal has this many columns (a fixed-width bar keeps its W columns however
+    /// narrow the terminal is; the line simply wraps)
+    #[serde(default)]
+    narrow_term: Option<u16>,
 }
 
 struct Parsed {
@@ -279,7 +283,9 @@ fn run_geo(c: &GeoCase) -> CaseResult {
             let template = if c.default_width { "{bar}|{frac}".to_string() } else { format!("{{bar:{}}}|{{frac}}", c.width) };
             let c = &GeoCase { width: if c.default_width { 20 } else { c.width }, ..c.clone() };
             v.label_if(c.default_width, "bar_without_a_width");
-            let r = rig_in(&c.chars, &template, u16::MAX, false, c.order).map_err(|p| Fail::new("panic", format!("building {template:?} chars {:?} panicked: {p}", c.chars)))?;
+            let term = c.narrow_term.map_or(u16::MAX, |t| t.max(1));
+            v.label_if((term as u32) < c.width, "fixed_width_bar_wider_than_the_terminal");
+            let r = rig_in(&c.chars, &template, term, false, c.order).map_err(|p| Fail::new("panic", format!("building {template:?} chars {:?} panicked: {p}", c.chars)))?;
             let (line, frac) = r.draw_end(c.len, c.pos, c.end).map_err(|p| Fail::new("panic", format!("drawing {template:?} chars {:?} len {:?} pos {}: {p}", c.chars, c.len, c.pos)))?;
             let bar = line.strip_suffix('|').ok_or_else(|| Fail::new("shape", format!("line {line:?} lost its literal")))?;
             let bar = strip_field_pad(bar, c.width as usize, cwidth)?;
@@ -466,7 +472,7 @@ fn geo_strategy() -> BoxedStrategy<GeoCase> {
     );
     let extra = (proptest::option::weighted(0.3, "[a-z:. \u{e9}\u{4e16}]{0,12}"), proptest::option::weighted(0.3, "[a-z:. \u{e9}\u{4e16}]{0,12}"));
     (chars_strategy(), width, len_pos_strategy(), wide, extra, any::<bool>(), proptest::option::weighted(0.3, 1u16..300), prop_oneof![3 => Just(0u8), 1 => Just(1u8), 1 => Just(2u8), 1 => Just(3u8)], proptest::option::weighted(0.25, 0u8..3), proptest::option::weighted(0.3, (0u8..13, 0u8..13)))
-        .prop_map(|(chars, width, (len, pos), wide, extra, in_multi, resized_from, order, end, retab)| GeoCase { default_width: wide.is_none() && width % 7 == 0, msg_line_above: width % 5 == 1, sgr_prefix: width % 4 == 2, via_println: width % 3 == 0, chars, width, len, pos, wide, extra, in_multi, resized_from, order, end, retab })
+        .prop_map(|(chars, width, (len, pos), wide, extra, in_multi, resized_from, order, end, retab)| GeoCase { narrow_term: if wide.is_none() && width % 3 == 1 && width <= 600 { Some((width / 2 + 1) as u16) } else { None }, default_width: wide.is_none() && width % 7 == 0, msg_line_above: width % 5 == 1, sgr_prefix: width % 4 == 2, via_println: width % 3 == 0, chars, width, len, pos, wide, extra, in_multi, resized_from, order, end, retab })
         .boxed()
 }
 
@@ -647,7 +653,7 @@ pub fn property() -> Property {
                 cases: |t| t.pick(60_000, 1_000_000),
                 run: run_geo,
                 signature: no_signature,
-                essential: &["partial_progress", "full", "double_width_cells", "huge_len", "two_chars", "wide_bar", "bar_without_a_width", "blank_background_glyph", "wide_bar_in_multi_line_template", "wide_bar_inside_multi_progress", "terminal_resized_between_frames", "rest_does_not_fit", "odd_remainder", "template_set_after_progress_chars", "finished_bar_short_of_its_length", "tab_width_changed_between_two_frames_of_a_line_with_a_tab", "wide_msg_line_above_the_wide_bar_line", "caller_coloured_text_on_the_wide_bar_line", "progress_chars_set_twice_with_different_widths", "first_frame_after_a_resize_painted_by_println"],
+                essential: &["partial_progress", "full", "double_width_cells", "huge_len", "two_chars", "wide_bar", "bar_without_a_width", "blank_background_glyph", "wide_bar_in_multi_line_template", "wide_bar_inside_multi_progress", "terminal_resized_between_frames", "rest_does_not_fit", "odd_remainder", "template_set_after_progress_chars", "finished_bar_short_of_its_length", "tab_width_changed_between_two_frames_of_a_line_with_a_tab", "wide_msg_line_above_the_wide_bar_line", "caller_coloured_text_on_the_wide_bar_line", "progress_chars_set_twice_with_different_widths", "first_frame_after_a_resize_painted_by_println", "fixed_width_bar_wider_than_the_terminal"],
                 workers: w,
                 decode: None,
             }));
